@@ -126,4 +126,18 @@ class FrontGen:
         out.append(('pp', '#include "main.sqf"', {}, 'self include'))
         out.append(('pp', '#include "a.hpp"', {'a.hpp': '#include "b.hpp"', 'b.hpp': '#include "a.hpp"'}, 'mutual include'))
         out.append(('pp', '__EXEC(x = 1)', {}, 'EXEC without value'))
+        # numbers at the edge of what the scanners convert: #line counts, scalars, hexadecimal literals, config numbers
+        for digits in (17, 18, 19, 20, 21, 40):
+            out.append(('sqf', 'a = 1; #line %s "x.sqf"\nb = 2;' % ('9' * digits), {}, '#line with %d digits' % digits))
+            out.append(('compile', '#line %s "x.sqf"\n1 + 1' % ('9' * digits), {}, '#line with %d digits, compiled' % digits))
+            out.append(('sqf', 'a = %s;' % ('9' * digits), {}, 'number with %d digits' % digits))
+            out.append(('sqf', 'a = 0x%s;' % ('F' * digits), {}, 'hexadecimal with %d digits' % digits))
+            out.append(('sqf', 'a = 1e%s;' % ('9' * digits), {}, 'exponent with %d digits' % digits))
+            out.append(('cfg', 'class A { x = %s; y = 1e%s; z[] = {%s}; };' % ('9' * digits, '9' * digits, '9' * digits), {}, 'config numbers with %d digits' % digits))
+        out.append(('sqf', '#line 18446744073709551615 "x"\n1', {}, '#line 2^64-1'))
+        out.append(('sqf', '#line 18446744073709551616 "x"\n1', {}, '#line 2^64'))
+        out.append(('sqf', '#line 1 "' + 'p' * 100000 + '"\n1', {}, '#line with a long path'))
+        out.append(('sqf', '#line', {}, '#line alone'))
+        out.append(('sqf', '#line 1', {}, '#line without path'))
+        out.append(('sqf', '#line 1 "', {}, '#line with an open path'))
         return out
